@@ -53,7 +53,7 @@ def run(ck):
                    "scipy.linalg.expm as the reference exponential (oracle and input of the propagation-matrix model)",
                    "numpy.linalg.eig/inv inside get_PropagationMatrix (contract K = S diag(d) S^-1, re-validated through the expm comparison)"]
     ok = extract(ck)
-    ck.prove(PROPS, extra_modules=["QV.Drive.C17"], also=["QV.Props.C17Bound", "QV.Props.C17Positive"])
+    ck.prove(PROPS, extra_modules=["QV.Drive.C17"], also=["QV.Props.C17Bound", "QV.Props.C17Positive", "QV.Props.C17Linear"])
     lines, impl, tol = [], [], []
 
     def emit(line, out, t=None):
